@@ -315,7 +315,13 @@ func WaitQuiet() {
 	for round := 0; round < 400; round++ {
 		if SchedQuiet() {
 			quiet++
-			if quiet >= 2 {
+			if quiet == 2 {
+				// the counters are approximate while goroutines change state: give a goroutine that was just made
+				// runnable the processor once, then ask a third time
+				runtime.Gosched()
+				continue
+			}
+			if quiet >= 3 {
 				if quietAudit {
 					if idle, _ := ForeignIdle(GoID()); !idle {
 						QuietAuditDisagreements.Add(1)
